@@ -153,6 +153,36 @@ def rule_hashcover(ctx):
                 r.violation('%s:%s' % (adt, fl), h.span(), h.path,
                             'field `%s` is compared by `==` but never fed to the hasher: values that differ only there are '
                             'unequal, answer observers differently, and always collide' % fl)
+            elif not h.d.get('derived'):
+                # fed on every path: a path to the return that skips every feed of the field may only be chosen by looking at
+                # the field itself (`match &self.f { Some(x) => x.hash(..), None => .. }`), never by other state
+                feeds = set()
+                for pt, t in h.calls():
+                    if any(x[0] == 'field' and x[2] == fl and x[3] == adt for a in t['args'] for x in walk(h.expr_of_operand(a))):
+                        feeds.add(pt[0])
+                if feeds:
+                    avoid = h.reachable(0, blocked=feeds)
+                    rets = [rb for rb in h.return_blocks() if rb in avoid]
+                    bad = None
+                    if rets:
+                        can_ret = {x for x in avoid if any(rb in h.reachable(x, blocked=feeds) for rb in rets)}
+                        for d in sorted(can_ret):
+                            t = h.term(d)
+                            if t['k'] != 'switch':
+                                continue
+                            succ = h.succs(d)
+                            splits = any(x in can_ret for x in succ) and any(x not in can_ret or x in feeds for x in succ)
+                            if not splits:
+                                continue
+                            de = h.expr_of_operand(t['d']) if t['d']['k'] in ('copy', 'move') else ('const',)
+                            if not any(x[0] == 'field' and x[2] == fl and x[3] == adt for x in walk(de)):
+                                bad = t
+                                break
+                    r.site('%s: field %s is fed to the hasher on every path' % (adt, fl), h.span(), 'violation' if bad else 'ok')
+                    if bad:
+                        r.violation('%s:%s:some-paths' % (adt, fl), bad.get('s') or h.span(), h.path,
+                                    'field `%s` reaches the hasher only on some paths, chosen by other state: two values that differ '
+                                    'in it are unequal but hash alike whenever that state selects the skipping path' % fl)
     r.check_floor()
     return r
 
